@@ -769,3 +769,45 @@ def unchanged_between(cfg, a, b, name):
         if w in cfg.reach([a]) and b in cfg.reach([w]):
             return False
     return True
+
+
+def fold(prog, func, e):
+    """e with temporaries/constants expanded and every constant-valued integer sub-expression replaced by its literal."""
+    e = expand(prog, func, e)
+
+    class F(ast.NodeTransformer):
+        def generic_visit(self, node):
+            node = super().generic_visit(node)
+            if isinstance(node, (ast.BinOp, ast.UnaryOp)):
+                v = _eval_const(node)
+                if isinstance(v, int) and not isinstance(v, bool):
+                    return ast.copy_location(ast.Constant(value=v), node)
+            return node
+
+    return ast.fix_missing_locations(F().visit(e))
+
+
+def path_values(cfg, src, dst, name, max_paths=4000):
+    """[(conditions, value expr)] of local `name` on entry to node dst, one entry per loop-free path from src: the
+    branch conditions taken along the path and the last value assigned to the name on it (None if not assigned or
+    assigned by something other than a plain assignment).  A conditional expression splits into its two cases."""
+    out = []
+    for path in cfg.paths(src, dst, max_paths=max_paths, unroll=0, follow_exc=False):
+        conds, val, seen = [], None, False
+        for i, nid in enumerate(path[:-1]):
+            n = cfg.nodes[nid]
+            labs = [l for t, l in cfg.succ[nid] if t == path[i + 1]]
+            if n.kind == "stmt" and name in node_local_writes(n):
+                seen = True
+                st = n.stmt
+                val = st.value if isinstance(st, (ast.Assign, ast.AnnAssign)) and all(
+                    isinstance(t, ast.Name) for t in (st.targets if isinstance(st, ast.Assign) else [st.target])) else None
+            for lab in labs:
+                if lab and lab[0] == "cond":
+                    conds.append((lab[1], lab[2]))
+        if isinstance(val, ast.IfExp):
+            out.append((conds + [(val.test, True)], val.body))
+            out.append((conds + [(val.test, False)], val.orelse))
+        else:
+            out.append((conds, val if seen else None))
+    return out
